@@ -8,9 +8,9 @@ EXTENDS QObjects
 
 \* the image of a matrix X under the superoperator G
 Act(G, X, sys) ==
-    LET basis == BasisOf(sys) nu == NuOf(sys)
-        x == [b \in 1..Len(basis) |-> CScale(R(1, nu[b]), HSInner(basis[b], X))]      \* complex H-coordinates of X
-        y == [a \in 1..Len(basis) |-> CSum([b \in 1..Len(basis) |-> <<RMul(G[a][b], x[b][1]), RMul(G[a][b], x[b][2])>>])]
+    LET basis == TLCEval(BasisOf(sys)) nu == NuOf(sys)
+        x == TLCEval([b \in 1..Len(basis) |-> CScale(R(1, nu[b]), HSInner(basis[b], X))])      \* complex H-coordinates of X
+        y == TLCEval([a \in 1..Len(basis) |-> CSum([b \in 1..Len(basis) |-> <<RMul(G[a][b], x[b][1]), RMul(G[a][b], x[b][2])>>])])
     IN SumMats([a \in 1..Len(basis) |-> [i \in 1..Len(basis[1]) |-> [j \in 1..Len(basis[1]) |-> CMul(y[a], basis[a][i][j])]]], Len(basis[1]))
 
 \* HS matrix in the computational basis E_ij, row-major (k-th basis element = E_{(k-1) div d, (k-1) mod d}) or column-major
@@ -19,7 +19,8 @@ IdxCol(d, k) == <<((k - 1) % d) + 1, ((k - 1) \div d) + 1>>
 HSComp(G, sys, rowMajor) ==
     LET d == DimOf(sys)
         idx(k) == IF rowMajor THEN IdxRow(d, k) ELSE IdxCol(d, k)
-        img == [c \in 1..(d * d) |-> Act(G, Eij(d, idx(c)[1], idx(c)[2]), sys)]
+        \* function constructors are lazy in TLC (every application re-evaluates the body): force the table once
+        img == TLCEval([c \in 1..(d * d) |-> TLCEval(Act(G, Eij(d, idx(c)[1], idx(c)[2]), sys))])
     IN [r \in 1..(d * d) |-> [c \in 1..(d * d) |-> img[c][idx(r)[1]][idx(r)[2]]]]
 
 \* Choi matrix, algebraic definition:  sum_ab G_ab H_a (x) conj(H_b) / nu_b
